@@ -371,17 +371,17 @@ var specs = map[string]Spec{
 		MaxSamples:  2,
 	},
 	"C11": {
-		Engine: "wire", Run: "^TestMuxRPC$", Race: true,
+		Engine: "wire", Run: "^(TestMuxRPC|TestMuxRPCPipe)$", Race: true,
 		RaceViolation: regexp.MustCompile(`MultiClientConn\)|multiMuxManager\)`),
 		QuickShards:   16, ThoroughShards: 16, QuickWatchdog: 10 * time.Minute, ThoroughWatchdog: 90 * time.Minute,
 		Level:       "exploration",
-		LevelText:   "The real MultiClientConn is driven by the real GRPCMuxManager (receiver role) over loopback TCP + yamux. Harness peers connect, serve a tagged gRPC server on their session and die on a seeded script (add, kill, flap = die right after establishment, kill all, replace = kill and add at once) while three client goroutines issue RPCs continuously. After every update, at a quiescent point reached by polling state (not by sleeping), the set of registered sessions must equal the number of live peer sessions, the endpoint keys the client connection may dial (MultiClientConn.Describe) must equal the registered keys, and CanMakeCalls must equal 'set non-empty'; a fresh RPC must then succeed if a session is alive and fail with Unavailable/DeadlineExceeded if none is; over the whole history every successful RPC must have been served by a peer whose session was alive during the call. Variants: a slow list-update listener; a client connection with a 300 ms gRPC idle timeout (a quarter of the random cases, plus scripted cases in which the clients fall quiet so that the channel goes idle between updates and calls, and in which the session list changes while it is idle); scripted cases with a session whose health check failed once (the harness peer swallows its reply to the second ping: the session keeps working, its state reads Error) registered when the list changes.",
+		LevelText:   "The real MultiClientConn is driven by the real GRPCMuxManager (receiver role) over loopback TCP + yamux. Harness peers connect, serve a tagged gRPC server on their session and die on a seeded script (add, kill, flap = die right after establishment, kill all, replace = kill and add at once) while three client goroutines issue RPCs continuously. After every update, at a quiescent point reached by polling state (not by sleeping), the set of registered sessions must equal the number of live peer sessions, the endpoint keys the client connection may dial (MultiClientConn.Describe) must equal the registered keys, and CanMakeCalls must equal 'set non-empty'; a fresh RPC must then succeed if a session is alive and fail with Unavailable/DeadlineExceeded if none is; over the whole history every successful RPC must have been served by a peer whose session was alive during the call. Variants: a slow list-update listener; a client connection with a 300 ms gRPC idle timeout (a quarter of the random cases, plus scripted cases in which the clients fall quiet so that the channel goes idle between updates and calls, and in which the session list changes while it is idle); scripted cases with a session whose health check failed once (the harness peer swallows its reply to the second ping: the session keeps working, its state reads Error) registered when the list changes. A second, pipe-based part (TestMuxRPCPipe): the harness plays the manager with real managed sessions over net.Pipe, one of them with a peer that has stopped reading (opening a stream on it blocks until yamux gives up), and changes the session list while gRPC's dial of that endpoint is stuck in Open(): the update must be applied at once, CanMakeCalls must answer, calls must reach the new session.",
 		LevelNote:   "Real time and sockets. A state that is still wrong after the live-peer set has been stable for 8 s is a violation by state (stale set); transport hiccups shorter than that are tolerated by polling. gRPC's own balancer is in the loop (round robin over the resolver's endpoints).",
 		Technique:   "runtime monitor: state-equality oracle at polled quiescent points + availability probes + served-by-live-session check over the recorded RPC history, race detector",
 		DesignRef:   "DESIGN.md §4 C11",
 		Rule:        "cases = seeded update sequences of 14 operations for pool sizes 1-3 (listener slow/prompt, idle timeout on/off) + 4 scripted idle / failed-health-check cases; distinct = cases; all non-trivial",
 		Assumptions: []string{"peers are yamux clients running a gRPC server on the session; the proxy side is the real receiver provider"},
-		QuickFloors: map[string]int64{"updates": 60, "quiescent_points_checked": 60, "rpcs_ok": 150, "quiet_periods": 3, "registered_sessions_seen_in_error_state": 1},
+		QuickFloors: map[string]int64{"updates": 60, "quiescent_points_checked": 60, "rpcs_ok": 150, "quiet_periods": 3, "registered_sessions_seen_in_error_state": 1, "updates_applied_while_a_dial_was_stuck": 1},
 		MaxSamples:  2,
 	},
 	"C05": {
